@@ -112,6 +112,7 @@ fn dispatch(prop: &str, tier: &str, seed: u64, rest: &[String]) -> i32 {
             vh::histprops::run(prop, &mut rep, tier);
             if prop == "C14" {
                 vh::c14perm::run(&mut rep, tier);
+                vh::c14perm::run_deep(&mut rep, tier);
             }
             if tier == "thorough" {
                 match prop {
